@@ -363,7 +363,8 @@ theorem dup_open {s sb : Sys} {c' : Nat} {a σ : String} (hR : DupReady s sb c' 
   rw [hside, hidem] at h3
   obtain ⟨hout, hdb, hsy, _, hcfg, _, hconns⟩ := h3 (fun hc => hc.2 hbox) (by omega)
   subst hsc
-  refine ⟨hdb, hsy, hcfg.trans hR.cfg, ⟨_, rfl, ?_⟩, hout⟩
+  refine ⟨hdb, hsy, hcfg.trans hR.cfg,
+    ⟨{ dupConn c' a σ with mailboxId := some m, mailbox := some m, listening := true }, rfl, ?_⟩, hout⟩
   rw [hconns, hR.conns]
   exact map_append_fresh hf _ rfl (fun y => { y with mailboxId := some m, mailbox := some m, listening := true })
 
@@ -407,10 +408,9 @@ theorem dup_close_gone {s sb : Sys} {c' : Nat} {a σ : String} (hR : DupReady s 
   have hside : (dupConn c' a σ).side.getD "" = σ := rfl
   rw [dupConn_closePre, hside, hR.db] at h3
   have hgo : ¬ ((dupConn c' a σ).mailbox = none ∧
-      (sb.db.Clash a m ∨ ((s.db.openDb a m σ t).mbSidesOf m).length > 2)) := by
+      (s.db.Clash a m ∨ ((s.db.openDb a m σ t).mbSidesOf m).length > 2)) := by
     rintro ⟨_, hk | hk⟩
     · obtain ⟨⟨m0, hm0, hi, _⟩, _⟩ := hk
-      rw [hR.db] at hm0
       exact hgone ⟨m0, hm0, hi⟩
     · rw [Chan.openDb_mbSidesOf, hnoside] at hk
       split at hk <;> simp at hk
@@ -461,9 +461,9 @@ theorem dup_close_survived {s sb : Sys} {c' : Nat} {a σ : String} (hR : DupRead
     rw [Chan.openDb_mbSidesOf]
     simp [hSv.own]
   have hgo : ¬ ((dupConn c' a σ).mailbox = none ∧
-      (sb.db.Clash a m ∨ ((s.db.openDb a m σ t).mbSidesOf m).length > 2)) := by
+      (s.db.Clash a m ∨ ((s.db.openDb a m σ t).mbSidesOf m).length > 2)) := by
     rintro ⟨_, hk | hk⟩
-    · exact hk.2 (by rw [hR.db]; exact hSv.box)
+    · exact hk.2 hSv.box
     · rw [hsides] at hk; omega
   obtain ⟨hout, hdb, hsy, hcfg, _, hsurv, _⟩ := h3 hgo
   have hoo : (s.db.openDb a m σ t).OtherOpen m σ := (Chan.otherOpen_openDb _ _ _ _ _).2 hSv.other
@@ -488,12 +488,11 @@ theorem dup_close_crowded {s sb : Sys} {c' : Nat} {a σ : String} (hR : DupReady
   have hSb := hR.synced hs
   obtain ⟨_, h2, _⟩ := close_step (s := sb) (by rw [hR.db]; exact hP) (by rw [hR.db]; exact hN) hSb hx
     (dupConn_close_valid c' a σ m mood) (app := a) rfl (dupConn_closeTarget c' a σ m) t id
-  have hside : (dupConn c' a σ).side.getD "" = σ := rfl
-  rw [dupConn_closePre, hside, hR.db] at h2
+  rw [dupConn_closePre, hR.db] at h2
   have hsides : (s.db.openDb a m σ t).mbSidesOf m = s.db.mbSidesOf m := by
     rw [Chan.openDb_mbSidesOf]
     simp [hSv.own]
-  exact (h2 rfl (fun hk => hk.2 (by rw [hR.db]; exact hSv.box)) (by rw [hsides]; exact hlen)).1
+  exact (h2 rfl (fun hk => hk.2 hSv.box) (by rw [hsides]; exact hlen)).1
 
 end Sys
 end Wormhole
